@@ -967,7 +967,7 @@ def write_xsec(d, rng, gases, wn):
 def cli_cases(ctx, rng, tmp):
     import taurex.taurex as prog
     from taurex.cache import OpacityCache, CIACache, GlobalCache
-    for n in range(ctx.n(6, 40)):
+    for n in range(ctx.n(14, 80)):
         d = os.path.join(tmp, 'cli%d' % n, 'xsec')
         od = os.path.join(tmp, 'cli%d' % n)
         gases = rng.sample(['H2O', 'CH4', 'CO2'], rng.randint(1, 2))
@@ -999,6 +999,50 @@ def cli_cases(ctx, rng, tmp):
             lines += ['    [[%s]]' % c]
             if c == 'SimpleClouds':
                 lines += ['    clouds_pressure = %r' % cloudsP]
+        # ---- optional [Observation], [Binning], [Instrument] sections
+        obs_file = None
+        if rng.random() < 0.5:
+            nb = rng.randint(3, 8)
+            owl = np.sort(np.array([rng.uniform(10000 / 4500.0, 10000 / 700.0) for _ in range(nb)]))
+            cols = [owl, np.array([rng.uniform(1e-3, 2e-2) for _ in range(nb)]),
+                    np.array([rng.uniform(1e-5, 1e-4) for _ in range(nb)])]
+            if rng.random() < 0.5:
+                gaps = np.diff(owl)
+                cols.append(np.array([rng.uniform(0.3, 0.9) * min(gaps[max(i - 1, 0)], gaps[min(i, nb - 2)]) for i in range(nb)]))
+            obs_file = os.path.join(od, 'obs.dat')
+            rows = np.vstack(cols).T
+            if rng.random() < 0.5:
+                rows = rows[::-1]
+            np.savetxt(obs_file, rows)
+            lines += ['', '[Observation]', 'observed_spectrum = %s' % obs_file]
+        bin_kind = rng.choice(['absent', 'native', 'observed', 'manual', 'manual'] if obs_file else
+                              ['absent', 'native', 'manual', 'manual'])
+        manual = None
+        if bin_kind != 'absent':
+            lines += ['', '[Binning]', 'bin_type = %s' % bin_kind]
+            if bin_kind == 'manual':
+                key = rng.choice(['wavelength_grid', 'wavenumber_grid', 'log_wavelength_grid', 'log_wavenumber_grid',
+                                  'wavelength_res'])
+                if 'wavenumber' in key:
+                    a, b = rng.uniform(600, 1500), rng.uniform(3000, 4800)
+                else:
+                    a, b = rng.uniform(2.2, 3.5), rng.uniform(7.0, 15.0)
+                c = rng.randint(3, 12) if key != 'wavelength_res' else rng.choice([5, 10, 20])
+                acc = rng.choice([None, True, False])
+                manual = (key, a, b, c, acc)
+                lines += ['%s = %r, %r, %d' % (key, a, b, c)]
+                if acc is not None:
+                    lines += ['accurate = %s' % acc]
+        snr, self_obs = None, False
+        if rng.random() < 0.4:
+            snr = (rng.choice([5, 10.0, 25.5]), rng.choice([None, 1, 4, 9]))
+            lines += ['', '[Instrument]', 'instrument = snr', 'SNR = %r' % snr[0]]
+            if snr[1] is not None:
+                lines += ['num_observations = %d' % snr[1]]
+            if obs_file is None and rng.random() < 0.5:
+                # the noised forward model is its own observation (documented for the instrument section)
+                lines += ['', '[Observation]', 'taurex_spectrum = self']
+                self_obs = True
         par = os.path.join(od, 'in.par')
         open(par, 'w').write('\n'.join(lines) + '\n')
         out_h5, out_txt = os.path.join(od, 'out.h5'), os.path.join(od, 'spec.txt')
@@ -1020,6 +1064,11 @@ def cli_cases(ctx, rng, tmp):
         with h5py.File(out_h5, 'r') as f:
             cli_native = f['Output/Spectra/native_spectrum'][...]
             cli_wn = f['Output/Spectra/native_wngrid'][...]
+            cli_binned = f['Output/Spectra/binned_spectrum'][...] if 'binned_spectrum' in f['Output/Spectra'] else None
+            cli_bwn = f['Output/Spectra/binned_wngrid'][...] if 'binned_wngrid' in f['Output/Spectra'] else None
+            cli_inst = {k: f['Output/Spectra/' + k][...] for k in ('instrument_wngrid', 'instrument_spectrum',
+                                                                  'instrument_noise') if k in f['Output/Spectra']}
+            cli_obs = {k: f['Observed/' + k][...] for k in ('spectrum', 'errorbars', 'wlgrid') if 'Observed' in f and k in f['Observed']}
         cli_txt = np.loadtxt(out_txt)
         # library build: no parser, no factory
         from taurex.data.planet import Planet
@@ -1046,13 +1095,80 @@ def cli_cases(ctx, rng, tmp):
         model.build()
         with np.errstate(all='ignore'):
             lib_wn, lib_native, _, _ = model.model()
+        # the resampling the documentation of [Binning] / [Observation] / [Instrument] describes, built from library objects
+        from taurex.binning import FluxBinner, SimpleBinner
+        from taurex.data.spectrum.observed import ObservedSpectrum
+        lib_res = (lib_wn, lib_native, None, None)
+        kind_eff = bin_kind if bin_kind != 'absent' else ('observed' if obs_file else 'native')
+        if kind_eff == 'native':
+            exp_wn, exp_binned = lib_wn, lib_native
+        elif kind_eff == 'observed':
+            ob = ObservedSpectrum(obs_file)
+            exp_wn = np.array(ob.wavenumberGrid)
+            exp_binned = ob.create_binner().bin_model(lib_res)[1]
+        else:
+            key, a, b, c, acc = manual
+            if key == 'wavelength_grid':
+                exp_wn = np.sort(10000 / np.linspace(a, b, c))
+            elif key == 'wavenumber_grid':
+                exp_wn = np.linspace(a, b, c)
+            elif key == 'log_wavelength_grid':
+                exp_wn = np.sort(10000 / np.logspace(math.log10(a), math.log10(b), c))
+            elif key == 'log_wavenumber_grid':
+                exp_wn = np.logspace(math.log10(a), math.log10(b), c)
+            else:
+                # constant resolving power: the library's own grid builder (what a library user would call)
+                from taurex.util.util import create_grid_res
+                exp_wn = 10000 / create_grid_res(c, a, b)[:, 0].flatten()[::-1]
+            if exp_wn is not None:
+                with np.errstate(all='ignore'):
+                    exp_binned = (FluxBinner if acc else SimpleBinner)(exp_wn).bin_model(lib_res)[1]
         ctx.case(('cli', '\n'.join(lines)), nontrivial=True,
-                 sample=dict(model=mtype, gases=gases, contributions=contribs, native_points=len(lib_wn)))
+                 sample=dict(model=mtype, gases=gases, contributions=contribs, native_points=len(lib_wn),
+                             observation=bool(obs_file), binning=bin_kind, manual=manual and manual[0], instrument=snr))
         ctx.count('cli:' + mtype)
+        ctx.count('cli:binning=' + bin_kind + (':' + manual[0] if manual else ''))
+        bad_bin = None
+        if True:
+            exp_txt = exp_binned
+            got_wl = cli_txt[:, 0] if cli_txt.ndim == 2 else cli_txt[None, :][:, 0]
+            got_sp = cli_txt[:, 1] if cli_txt.ndim == 2 else cli_txt[None, :][:, 1]
+            o1, o2 = np.argsort(10000 / got_wl), np.argsort(exp_wn)
+            same = lambda x, y: np.allclose(x, y, rtol=1e-6, atol=0, equal_nan=True)
+            if len(got_wl) != len(exp_wn) or not same((10000 / got_wl)[o1], exp_wn[o2]):
+                bad_bin = 'the spectrum file is on the grid %r, the input file asks for %r' % ((10000 / got_wl)[o1][:5], exp_wn[o2][:5])
+            elif not same(got_sp[o1], np.asarray(exp_txt)[o2]):
+                bad_bin = 'the spectrum file holds %r, resampling the library spectrum as the input file asks gives %r' % (
+                    got_sp[o1][:5], np.asarray(exp_txt)[o2][:5])
+            elif not self_obs and cli_binned is not None and cli_bwn is not None and not (
+                    same(np.sort(cli_bwn), np.sort(exp_wn)) and same(cli_binned[np.argsort(cli_bwn)], np.asarray(exp_txt)[o2])):
+                bad_bin = 'the output file stores the binned spectrum %r on %r, expected %r on %r' % (
+                    cli_binned[:4], cli_bwn[:4], np.asarray(exp_txt)[:4], exp_wn[:4])
+            elif snr is not None:
+                sp = np.asarray(exp_txt, float)
+                noise = (np.max(sp) - np.min(sp)) / snr[0] / math.sqrt(snr[1] or 1)
+                got_err = cli_txt[:, 2] if cli_txt.ndim == 2 else cli_txt[None, :][:, 2]
+                if np.isnan(noise):
+                    pass        # a manual grid with empty bins: the spectrum holds NaN and so does the noise
+                elif not np.allclose(got_err, noise, rtol=1e-6):
+                    bad_bin = 'instrument noise %r, documented (max-min)/SNR/sqrt(num_observations) = %r' % (got_err[:3], noise)
+                elif 'instrument_noise' not in cli_inst or not np.allclose(cli_inst['instrument_noise'], noise, rtol=1e-9):
+                    bad_bin = 'instrument noise missing from / wrong in the output file: %r' % (cli_inst.get('instrument_noise'),)
+                elif self_obs and not (len(cli_obs) == 3 and np.allclose(np.sort(cli_obs['spectrum']), np.sort(sp), rtol=1e-9)
+                                       and np.allclose(cli_obs['errorbars'], noise, rtol=1e-9)
+                                       and np.allclose(np.sort(10000 / cli_obs['wlgrid']), np.sort(exp_wn), rtol=1e-9)):
+                    bad_bin = 'taurex_spectrum = self: the stored observation %r is not the noised forward model' % (
+                        {k: v[:3] for k, v in cli_obs.items()},)
+            elif snr is None and cli_txt.ndim == 2 and np.any(cli_txt[:, 2] != 0):
+                bad_bin = 'error column %r without an instrument' % cli_txt[:3, 2]
+        if bad_bin:
+            ctx.violation('cli-binning', 'command-line resampling: ' + bad_bin, replay=rp)
+            continue
         if not (np.array_equal(cli_wn, lib_wn) and np.allclose(cli_native, lib_native, rtol=1e-12, atol=0)):
             ctx.violation('cli-spectrum', 'command-line spectrum differs from the library build of the same components: '
                           '%r vs %r' % (cli_native[:4], lib_native[:4]), replay=rp)
-        elif not (cli_txt.shape[0] == len(lib_wn) and np.allclose(np.sort(cli_txt[:, 1]), np.sort(lib_native), rtol=1e-6)):
+        elif kind_eff == 'native' and not (cli_txt.shape[0] == len(lib_wn) and
+                                           np.allclose(np.sort(cli_txt[:, 1]), np.sort(lib_native), rtol=1e-6)):
             ctx.violation('cli-spectrum-file', 'the spectrum file written with -S differs from the library spectrum',
                           replay=rp)
         else:
